@@ -90,6 +90,8 @@ type Exec struct {
 	pending  []pendingAssert
 	snaps    []*snapNode
 	syncMaps map[*Value]*Map
+	uuids    []*Term
+	nuuid    int
 	onceDone map[*Value]bool
 
 	// per path results (merged into the harness stats at path end)
